@@ -487,15 +487,19 @@ func ApplyOverlapToChunks(chunks []*Chunk, config OverlapConfig) []*ChunkWithOve
 	generator := NewOverlapGeneratorWithConfig(config)
 	result := make([]*ChunkWithOverlap, len(chunks))
 
+	prevOwnText := ""
 	for i, chunk := range chunks {
 		result[i] = &ChunkWithOverlap{
 			Chunk: chunk,
 		}
 
+		// The chunk's text is extended below; the next chunk must overlap with
+		// this chunk's own content only
+		ownText := chunk.Text
+
 		if i > 0 && config.Strategy != OverlapNone {
 			// Generate overlap from previous chunk
-			prevChunk := chunks[i-1]
-			overlap := generator.GenerateOverlap(prevChunk.Text)
+			overlap := generator.GenerateOverlap(prevOwnText)
 
 			if overlap.Text != "" {
 				result[i].OverlapPrefix = overlap.Text
@@ -516,6 +520,8 @@ func ApplyOverlapToChunks(chunks []*Chunk, config OverlapConfig) []*ChunkWithOve
 				result[i].Chunk.Metadata.EstimatedTokens = len(result[i].Chunk.Text) / 4
 			}
 		}
+
+		prevOwnText = ownText
 	}
 
 	return result
